@@ -675,12 +675,16 @@ def merge_small_cones(pairs, pc=(), maxcone=12, seed=0, solve=None, maxcand=400)
     return newpairs, len(mapping), nq
 
 
+REFUTERS = []       # models that refuted a candidate lemma in the last discover_aliases call: prime candidates for a global counterexample
+
+
 def discover_aliases(pairs, pc=(), maxcone=12, seed=0, solve=None, maxcand=600, both_sides=False):
     """find small-cone equalities between the reference side (second components) and the implementation side (first
     components) by simulation signature, prove them with the solver, and return them as construction-time aliases
     (reference entity -> implementation form): (node_alias {nid: value}, slice_alias {nid: [(lo, n, value)]}, n_queries)"""
     impl_vals = [g for g, e in pairs]
     spec_vals = [e for g, e in pairs]
+    del REFUTERS[:]
     roots_i = set()
     for v in impl_vals:
         roots_i.update(T.value_deps(v))
@@ -796,6 +800,7 @@ def discover_aliases(pairs, pc=(), maxcone=12, seed=0, solve=None, maxcand=600, 
                 refuted += 1
                 asg = {n: model.get(n, 0) for n in names}
                 evals.append(T.Evaluator(asg))
+                REFUTERS.append(asg)
         if not refuted:
             break
     node_alias = {}
